@@ -192,7 +192,36 @@ func (x *Exec) comp(st *State, fam string, root types.Type, j int) *Term {
 	x.heapInfo[k] = heapInfo{fam, root, j}
 	st.heap[k] = t
 	x.assumeGlobFacts(st, k, t)
+	x.heapWF(t, l, strings.HasPrefix(fam, "arr:"))
 	return t
+}
+
+// heapWF: every reference stored in the entry heap denotes an object that existed at entry
+// (assumption A-heapwf), i.e. is at most alloc0. Needed to separate fresh allocations from everything
+// reachable from the inputs.
+func (x *Exec) heapWF(h0 *Term, l Leaf, isArr bool) {
+	if x.inInit || x.heapPrefix != "" || (l.Kind != 'r' && l.Kind != 'p') {
+		return
+	}
+	if x.axiomSeen["wf:"+h0.Name] {
+		return
+	}
+	x.axiomSeen["wf:"+h0.Name] = true
+	x.qcount++
+	r := Var("r!wf"+itoa(x.qcount), SInt)
+	vars := []*Term{r}
+	t := Select(h0, r)
+	dims := l.Dims
+	if isArr {
+		dims++
+	}
+	for d := 0; d < dims; d++ {
+		x.qcount++
+		i := Var("i!wf"+itoa(x.qcount), idxSort)
+		vars = append(vars, i)
+		t = Select(t, i)
+	}
+	x.extraAxioms = append(x.extraAxioms, Quant("forall", vars, IntCmp("<=", t, x.c.Named("alloc0", SInt)), t))
 }
 
 type heapInfo struct {
@@ -278,8 +307,15 @@ func (x *Exec) assumeGlobFacts(st *State, k string, comp *Term) {
 	if x.inInit {
 		return
 	}
+	// Facts about constant globals are asserted as global axioms about the component symbol (not as
+	// path assumptions, which would become path guards when states are merged).
 	for _, f := range x.globFacts[k] {
-		st.assume(Eq(Select(comp, f.ref), f.val))
+		key := comp.String() + "@" + f.ref.String()
+		if x.axiomSeen[key] {
+			continue
+		}
+		x.axiomSeen[key] = true
+		x.extraAxioms = append(x.extraAxioms, Eq(Select(comp, f.ref), f.val))
 	}
 }
 
